@@ -495,3 +495,24 @@ package astisub
 //@   ensures [ssa] result == hmsRope(i) ++ "." ++ strpadleft(itoa(i % 1000000000 / 10000000), 48, 2)
 //@   assigns nothing
 //@ end
+
+// ---------------------------------------------------------------------------
+// C17  delivery independence: the line splitter and the block reader
+// ---------------------------------------------------------------------------
+
+// Prefix stability of the split function installed by newScanner: once it has
+// produced a token from the bytes seen so far (not at EOF), it produces the same
+// advance and the same token when more bytes have arrived. With bufio.Scanner's
+// buffering algorithm this makes the token sequence a function of the byte
+// sequence alone.
+//@ harness splitStable(data []byte, more []byte, atEOF bool)
+//@   prop C17
+//@   requires len(more) >= len(data) && (forall k int :: 0 <= k && k < len(data) ==> more[k] == data[k])
+//@   requires forall k int :: 0 <= k && k < len(data) ==> data[k] == more[k]
+//@   let a1, t1, e1 = newScanner$1(data, false)
+//@   let a2, t2, e2 = newScanner$1(more, atEOF)
+//@   ensures [advance] a1 > 0 ==> a2 == a1
+//@   ensures [token] a1 > 0 ==> len(t2) == len(t1) && (forall k int :: 0 <= k && k < len(t1) ==> t2[k] == t1[k])
+//@   ensures [no-error] e1 == nil && e2 == nil
+//@   ensures [progress-bounds] 0 <= a1 && a1 <= len(data) && 0 <= a2 && a2 <= len(more)
+//@ end
